@@ -1,6 +1,7 @@
 (* Hand-written model of TurDB's predicate evaluation AS IT IS after the repairs
    09f6c0c (three-valued eval_tv), e461c39 (constant folding), ad4c27e (LIKE), dd0c52e (IN
-   equality), f600909 (i64::MIN literal), 4a1f993 (NOT precedence), for property C14.
+   equality), f600909 (i64::MIN literal), 4a1f993 (NOT precedence), 5b60fb5 (BETWEEN with an
+   unevaluable bound), d9dc553 (checked integer arithmetic: overflow yields None), for property C14.
    Definitions only.
 
    Transcribed from /repo:
@@ -114,10 +115,10 @@ Definition value_as_tv (o : option ivalue) : option bool :=
   | Some (IText _) => Some false
   end.
 
-(* eval_arithmetic_op with plain i64 + - * : overflow panics in the dev profile *)
+(* eval_arithmetic_op with i64::checked_add / checked_sub / checked_mul: overflow yields None *)
 Definition arith_i (op : arith) (a b : ivalue) : res (option ivalue) :=
   match a, b with
-  | IInt x, IInt y => let z := arith_z op x y in if i64_ok z then Ok (Some (IInt z)) else Panic
+  | IInt x, IInt y => let z := arith_z op x y in if i64_ok z then Ok (Some (IInt z)) else Ok None
   | IFloat _, (IInt _ | IFloat _) | IInt _, IFloat _ => Unmod      (* float arithmetic: not modelled *)
   | _, _ => Ok None
   end.
@@ -213,6 +214,8 @@ Definition between_side (x bound : ivalue) (reject : comparison) : option bool :
              | None => false
              end).
 
+Definition or_null (o : option ivalue) : ivalue := match o with Some v => v | None => INull end.
+
 Fixpoint evalx (e : expr) (r : row) : res xval :=
   match e with
   | ECol i => match nth_error r i with
@@ -283,22 +286,12 @@ Fixpoint evalx (e : expr) (r : row) : res xval :=
                   (fun t => Ok (XT t))
         end)
   | EBetween neg a lo hi =>
-      bindr (evalx a r) (fun xa =>
-        match as_val xa with
-        | None => Ok (XT None)
-        | Some x =>
-            bindr (evalx lo r) (fun xl =>
-              match as_val xl with
-              | None => Ok (XT None)
-              | Some l =>
-                  bindr (evalx hi r) (fun xh =>
-                    match as_val xh with
-                    | None => Ok (XT None)
-                    | Some h =>
-                        Ok (XT (option_map (xorb neg) (and3 (between_side x l Lt) (between_side x h Gt))))
-                    end)
-              end)
-        end)
+      (* an operand that cannot be evaluated (None) counts as NULL: unwrap_or(Value::Null) *)
+      bindr (evalx a r) (fun xa => bindr (evalx lo r) (fun xl => bindr (evalx hi r) (fun xh =>
+        let x := or_null (as_val xa) in
+        let l := or_null (as_val xl) in
+        let h := or_null (as_val xh) in
+        Ok (XT (option_map (xorb neg) (and3 (between_side x l Lt) (between_side x h Gt)))))))
   | ELike neg a p =>
       bindr (evalx a r) (fun xa =>
         match as_val xa with
